@@ -65,6 +65,11 @@ class BehavioralRTLIRTypeCheckVisitorL3( BehavioralRTLIRTypeCheckVisitorL2 ):
 
         # If RHS is an int literal try to enforce the correct bitwidth.
         if not r_is_struct and is_rhs_reinterpretable and struct_nbits != vector_nbits:
+          # Check if any implicit truncation happens
+          if struct_nbits < vector_nbits:
+            raise PyMTLTypeError( s.blk, node.ast,
+              f'LHS target#{i+1} has {struct_nbits} bits but the integer '
+              f'on the RHS requires more bits ({vector_nbits})!' )
           s.enforcer.enter( s.blk, rt.NetWire(rdt.Vector(struct_nbits)), node.value )
 
         if l_is_struct:
